@@ -168,6 +168,7 @@ class Program:
         self.fn_generics = {}     # fn def name -> [param names]
         self.enum_variants = {}   # enum short name -> [variant names]
         self.struct_fields = {}   # struct short name -> [field names]
+        self.variant_field_types = {}
         self.variant_has_fields = {("Option", "Some"): True, ("Result", "Ok"): True, ("Result", "Err"): True,
                                    ("ErrMode", "Backtrack"): True, ("ErrMode", "Cut"): True, ("ErrMode", "Incomplete"): True,
                                    ("StrContext", "Label"): True, ("StrContext", "Expected"): True,
@@ -274,7 +275,10 @@ class Program:
                         mm = re.match(r"(\w+)", part)
                         if mm:
                             vs.append(mm.group(1))
-                            self.variant_has_fields[(m.group(1), mm.group(1))] = part[mm.end():].lstrip().startswith(("(", "{"))
+                            rest_ = part[mm.end():].lstrip()
+                            self.variant_has_fields[(m.group(1), mm.group(1))] = rest_.startswith(("(", "{"))
+                            if rest_.startswith("("):
+                                self.variant_field_types[(m.group(1), mm.group(1))] = [x.strip() for x in split_top(rest_[1:match_close(rest_, 0, angle=True)])]
                     self.enum_variants[m.group(1)] = vs
                 for m in re.finditer(r"\bstruct\s+(\w+)\s*(?:<[^>]*>)?\s*\{", text_nc):
                     e = match_close(text_nc, m.end() - 1, angle=False)
@@ -1358,9 +1362,7 @@ class Interp:
         h = self.find_intrinsic(path)
         if h is not None:
             self.stats["intrinsics"].add(h.__name__)
-            info = CallInfo(self, path, fr, term, st)
-            r = h(self, st, args, info)
-            return self.normalise(r, st)
+            return self.call_intrinsic(h, args, st, path, fr, term)
         r = self.P.resolve_fn(path, fr.env if fr else None)
         if r is not None:
             f, b = r
@@ -1371,6 +1373,28 @@ class Interp:
         if len(names) >= 2 and names[-2] in self.P.enum_variants and names[-1] in self.P.enum_variants[names[-2]]:
             return [(st, Adt(names[-2], names[-1], args))]
         raise Unsupported("call to unmodelled function %s" % path.text[:200])
+
+    def call_intrinsic(self, h, args, st, path, fr, term):
+        """run an intrinsic; arguments that are guarded unions are split first (one call per
+        alternative under its guard) unless the intrinsic declares that it handles unions"""
+        if not getattr(h, "union_ok", False):
+            for i, a in enumerate(args):
+                u = a.v if isinstance(a, ValRef) else a
+                if isinstance(u, Union):
+                    outs = []
+                    for g, x in u.alts:
+                        if not self.feasible(st.pc, g):
+                            continue
+                        st2 = st.fork(b_simpl(g))
+                        a2 = list(args)
+                        a2[i] = ValRef(x) if isinstance(a, ValRef) else x
+                        outs.extend(self.call_intrinsic(h, a2, st2, path, fr, term))
+                    if not outs:
+                        raise Unsupported("no feasible alternative for union argument")
+                    return outs
+        info = CallInfo(self, path, fr, term, st)
+        r = h(self, st, args, info)
+        return self.normalise(r, st)
 
     def normalise(self, r, st):
         """turn an intrinsic's result into [(St, value|Panic)]"""
